@@ -463,3 +463,330 @@ theorem parseInfo_safe (s : Bytes) : (parseInfo true s).isOob = false := by
         · split at hp <;> simp at hp
 
 end Uft.InfoFile
+
+namespace Uft.TaskTxt
+open Uft.TextScan
+
+theorem fmtTs_safe (n : Nat) : ∀ d ∈ fmtTs, dirSafe n d := by
+  intro d hd
+  simp only [fmtTs, List.mem_append, List.mem_cons, List.not_mem_nil, or_false] at hd
+  rcases hd with hd | rfl | rfl | rfl
+  · exact lits_safe _ _ d hd
+  all_goals trivial
+
+theorem fmtTask_safe (n : Nat) : ∀ d ∈ fmtTask, dirSafe n d := by
+  intro d hd
+  simp only [fmtTask, List.mem_append, List.mem_cons, List.not_mem_nil, or_false] at hd
+  rcases hd with ((((hd | rfl) | hd) | rfl | rfl) | hd) | rfl
+  · exact fmtTs_safe _ d hd
+  · trivial
+  · exact lits_safe _ _ d hd
+  · trivial
+  · trivial
+  · exact lits_safe _ _ d hd
+  · trivial
+
+theorem fmtFork_safe (n : Nat) : ∀ d ∈ fmtFork, dirSafe n d := by
+  intro d hd
+  simp only [fmtFork, List.mem_append, List.mem_cons, List.not_mem_nil, or_false] at hd
+  rcases hd with ((((hd | rfl) | hd) | rfl | rfl) | hd) | rfl
+  · exact fmtTs_safe _ d hd
+  · trivial
+  · exact lits_safe _ _ d hd
+  · trivial
+  · trivial
+  · exact lits_safe _ _ d hd
+  · trivial
+
+theorem sidDir_safe (n : Nat) : dirSafe n (sidDir true) := by
+  simp [sidDir, dirSafe]
+
+theorem fmtSess_safe (n : Nat) : ∀ d ∈ fmtSess true, dirSafe n d := by
+  intro d hd
+  simp only [fmtSess, List.mem_append, List.mem_cons, List.not_mem_nil, or_false] at hd
+  rcases hd with ((((hd | rfl | rfl) | hd) | rfl | rfl) | hd) | rfl
+  · exact fmtTs_safe _ d hd
+  · trivial
+  · trivial
+  · exact lits_safe _ _ d hd
+  · trivial
+  · trivial
+  · exact lits_safe _ _ d hd
+  · exact sidDir_safe n
+
+theorem fmtDlop_safe (n : Nat) : ∀ d ∈ fmtDlop true, dirSafe n d := by
+  intro d hd
+  simp only [fmtDlop, List.mem_append, List.mem_cons, List.not_mem_nil, or_false] at hd
+  rcases hd with ((((((hd | rfl) | hd) | rfl | rfl) | hd) | rfl | rfl) | hd) | rfl
+  · exact fmtTs_safe _ d hd
+  · trivial
+  · exact lits_safe _ _ d hd
+  · trivial
+  · trivial
+  · exact lits_safe _ _ d hd
+  · exact sidDir_safe n
+  · trivial
+  · exact lits_safe _ _ d hd
+  · trivial
+
+theorem quoted_safe (key : String) (l : Bytes) : (quoted true key l).isOob = false := by
+  unfold quoted
+  split
+  · rfl
+  · split <;> simp
+
+theorem parseLine_safe (l : Bytes) : (parseLine true l).isOob = false := by
+  unfold parseLine
+  simp only
+  split
+  · rfl
+  · split
+    · simp
+    · split
+      · have := runFmt_safe fmtTask (l.drop 5) [] (fmtTask_safe _)
+        split
+        · rfl
+        · rfl
+        · rfl
+        · rename_i h; rw [h] at this; simp at this
+      · split
+        · have := runFmt_safe fmtFork (l.drop 5) [] (fmtFork_safe _)
+          split
+          · rfl
+          · rfl
+          · rfl
+          · rename_i h; rw [h] at this; simp at this
+        · split
+          · have := runFmt_safe (fmtSess true) (l.drop 5) [] (fmtSess_safe _)
+            split
+            · have hq := quoted_safe "exename=" l
+              split
+              · rfl
+              · rfl
+              · rename_i h; rw [h] at hq; simp at hq
+            · rfl
+            · rfl
+            · rename_i h; rw [h] at this; simp at this
+          · have := runFmt_safe (fmtDlop true) (l.drop 5) [] (fmtDlop_safe _)
+            split
+            · have hq := quoted_safe "libname=" l
+              split
+              · rfl
+              · rfl
+              · rename_i h; rw [h] at hq; simp at hq
+            · rfl
+            · rfl
+            · rename_i h; rw [h] at this; simp at this
+
+theorem parseLines_safe (n : Nat) (s : Bytes) (acc : List Item) :
+    (parseLines true n s acc).isOob = false := by
+  induction n generalizing s acc with
+  | zero => simp [parseLines]
+  | succ n ih =>
+    unfold parseLines
+    split
+    · rfl
+    · rename_i l r _
+      have := parseLine_safe (cstr l)
+      split
+      · exact ih _ _
+      · exact ih _ _
+      · rfl
+      · rename_i h; rw [h] at this; simp at this
+
+theorem parseTaskTxt_safe (s : Bytes) : (parseTaskTxt true s).isOob = false :=
+  parseLines_safe _ _ _
+
+theorem chromeHeader_safe (items : List Item) (tids : List Int) :
+    (chromeHeader true items tids).isOob = false := by
+  induction tids with
+  | nil => simp [chromeHeader]
+  | cons t r ih =>
+    unfold chromeHeader
+    split
+    · cases h : chromeHeader true items r with
+      | ok l => rfl
+      | err e => rfl
+      | oob x => rw [h] at ih; simp at ih
+    · simp only [↓reduceIte]
+      exact ih
+
+end Uft.TaskTxt
+
+namespace Uft.TaskTxt
+open Uft.TextScan
+
+theorem fmtMap_safe {n : Nat} (h : n ≤ 4095) : ∀ d ∈ fmtMap true, dirSafe n d := by
+  intro d hd
+  simp only [fmtMap, List.mem_cons, List.not_mem_nil, or_false] at hd
+  rcases hd with rfl | rfl | rfl | rfl | rfl | rfl | rfl | rfl | rfl | rfl | rfl | rfl | rfl |
+    rfl | rfl | rfl | rfl
+  all_goals (first | trivial | (simp only [↓reduceIte, dirSafe]; omega))
+
+theorem mapLine_safe {l : Bytes} (h : l.length ≤ 4095) (m : Maps) : (mapLine true l m).isOob = false := by
+  unfold mapLine
+  have := runFmt_safe (fmtMap true) l [] (fmtMap_safe h)
+  split
+  · split
+    · split
+      · split <;> rfl
+      · split
+        · split <;> rfl
+        · rfl
+    · rfl
+  · rfl
+  · rename_i hh; rw [hh] at this; simp at this
+
+theorem mapLines_safe (n : Nat) (s : Bytes) (m : Maps) : (mapLines true n s m).isOob = false := by
+  induction n generalizing s m with
+  | zero => simp [mapLines]
+  | succ n ih =>
+    unfold mapLines
+    split
+    · rfl
+    · rename_i l r hf
+      have hl : (cstr l).length ≤ 4095 := by
+        have := fgets_le hf
+        have := cstr_le l
+        omega
+      have := mapLine_safe hl m
+      split
+      · exact ih _ _
+      · rfl
+      · rename_i hh; rw [hh] at this; simp at this
+
+theorem parseMap_safe (s : Bytes) : (parseMap true s).isOob = false := mapLines_safe _ _ _
+
+theorem hdrValue_safe (v : Bytes) : (hdrValue true v).isOob = false := by
+  unfold hdrValue
+  split <;> simp
+
+theorem checkLoop_safe (n : Nat) (s : Bytes) (h : SymHdr) : (checkLoop true n s h).isOob = false := by
+  induction n generalizing s h with
+  | zero => simp [checkLoop]
+  | succ n ih =>
+    unfold checkLoop
+    split
+    · rfl
+    · simp only
+      split
+      · rfl
+      · split
+        · rfl
+        · split
+          · rename_i l0 r _ _ _ _
+            have := hdrValue_safe ((cstr l0).drop 13)
+            split
+            · exact ih _ _
+            · rfl
+            · rename_i hh; rw [hh] at this; simp at this
+          · split
+            · rename_i l0 r _ _ _ _ _
+              have := hdrValue_safe (((cstr l0).drop 12).take 40)
+              split
+              · exact ih _ _
+              · rfl
+              · rename_i hh; rw [hh] at this; simp at this
+            · exact ih _ _
+
+theorem symTail_safe (a z : Nat) (ty : UInt8) (p : Bytes) : (symTail a z ty p).isOob = false := by
+  unfold symTail
+  split <;> rfl
+
+theorem symLine_safe (l : Bytes) : (symLine true l).isOob = false := by
+  unfold symLine
+  simp only
+  split
+  · simp
+  · split
+    · split
+      · simp
+      · exact symTail_safe _ _ _ _
+      · rfl
+    · exact symTail_safe _ _ _ _
+  · rfl
+
+theorem symLines_safe (n : Nat) (s : Bytes) (acc : List SymLine) :
+    (symLines true n s acc).isOob = false := by
+  induction n generalizing s acc with
+  | zero => simp [symLines]
+  | succ n ih =>
+    unfold symLines
+    split
+    · rfl
+    · rename_i l0 r _
+      simp only
+      split
+      · exact ih _ _
+      · have := symLine_safe (cstr l0)
+        split
+        · exact ih _ _
+        · exact ih _ _
+        · rfl
+        · rename_i hh; rw [hh] at this; simp at this
+
+theorem parseSym_safe (modname s : Bytes) : (parseSym true modname s).isOob = false := by
+  unfold parseSym
+  have h1 := checkLoop_safe (s.length + 1) s {}
+  unfold checkSymFile
+  split
+  · split
+    · rfl
+    · have h2 := symLines_safe (s.length + 1) s []
+      split
+      · rfl
+      · rfl
+      · rename_i hh; rw [hh] at h2; simp at h2
+  · rfl
+  · rename_i hh; rw [hh] at h1; simp at h1
+
+end Uft.TaskTxt
+
+namespace Uft.TaskTxt
+open Uft.TextScan
+
+theorem guessKernelBase_ge (a : Nat) : 0x40000000 ≤ guessKernelBase a := by
+  unfold guessKernelBase
+  repeat' split
+  all_goals omega
+
+theorem mapLine_kb {fixed : Bool} {l : Bytes} {m m' : Maps} (h : mapLine fixed l m = .ok m')
+    (hk : 0x40000000 ≤ m.kernelBase) : 0x40000000 ≤ m'.kernelBase := by
+  unfold mapLine at h
+  split at h
+  · split at h
+    · split at h
+      · split at h
+        · simp only [PR.ok.injEq] at h
+          rw [← h]
+          exact guessKernelBase_ge _
+        · simp only [PR.ok.injEq] at h
+          rw [← h]; exact hk
+      · split at h
+        · split at h <;> (simp only [PR.ok.injEq] at h; rw [← h]; exact hk)
+        · simp only [PR.ok.injEq] at h
+          rw [← h]; exact hk
+    · simp only [PR.ok.injEq] at h
+      rw [← h]; exact hk
+  · simp at h
+  · simp at h
+
+theorem mapLines_kb {fixed : Bool} (n : Nat) {s : Bytes} {m m' : Maps}
+    (h : mapLines fixed n s m = .ok m') (hk : 0x40000000 ≤ m.kernelBase) :
+    0x40000000 ≤ m'.kernelBase := by
+  induction n generalizing s m with
+  | zero =>
+    simp only [mapLines, PR.ok.injEq] at h
+    rw [← h]; exact hk
+  | succ n ih =>
+    unfold mapLines at h
+    split at h
+    · simp only [PR.ok.injEq] at h
+      rw [← h]; exact hk
+    · split at h
+      · rename_i hm
+        exact ih h (mapLine_kb hm hk)
+      · simp at h
+      · simp at h
+
+end Uft.TaskTxt
